@@ -25,6 +25,12 @@ func judgeSkip(cs *drv.Case, which int, b []byte, t byte, pr *ref.ParseResult, o
 		cs.Fail("skip-"+kind, M{"skipper": name}, base())
 		return
 	}
+	if o.secondCall != "" {
+		d := base()
+		d["message"] = o.secondCall
+		cs.Fail("skip-second-call-after-rejection", M{"skipper": name}, d)
+		return
+	}
 	if pr.TooDeep {
 		c.DontCare("oracle-depth-cap")
 		return
@@ -95,6 +101,9 @@ func runAllSkippers(cs *drv.Case, b []byte, t byte, allocCap uint64, arenaPlaced
 }
 
 func monC08(c *drv.Ctx) {
+	if fuzzReplayStage(c) {
+		return
+	}
 	// skippers that buffer what the input declares only get inputs whose largest request stays below the cap
 	allocCap := uint64(1 << 20)
 	if c.Thorough() {
